@@ -465,3 +465,50 @@ Proof.
   cbn [run fst snd]. rewrite Hct. cbn [cache opt]. rewrite last_epoch_snoc, hget_new.
   fold c s'. repeat split; auto.
 Qed.
+
+Lemma s_after_epoch : forall p dflt vals, s_epoch (s_after p dflt vals) = Z.of_nat (List.length vals).
+Proof. intros. unfold s_after. rewrite s_epoch_after. cbn. lia. Qed.
+
+(* "stops exactly when the epoch budget is reached or, with early stopping enabled, when for the
+   configured number of consecutive post-burn-in epochs ..." *)
+Lemma stop_iff_rule : forall rnd rd p decl dflt steps x,
+  wf p -> plain decl (steps ++ [x]) -> es_quiet p (s_init p dflt) (map s_val steps) = true ->
+  let s := s_after p dflt (map s_val steps) in
+  exists c ct o info,
+    fst (run rnd rd p decl dflt (init_state p dflt) (steps ++ [x]))
+    = fst (run rnd rd p decl dflt (init_state p dflt) steps) ++ [OOk c ct o info] /\ ct = c /\
+    (c = false <->
+     (exists n, p_num p = Some n /\ n <= Z.of_nat (List.length steps) + 1) \/
+     (0 < es_thr p /\ bad (rule_step (s_es s) (es_thr p) (s_val x)) = es_pat p)).
+Proof.
+  intros rnd rd p decl dflt steps x Hwf Hpl Hq s.
+  destruct (last_epoch_follows rnd rd p decl dflt steps x Hwf Hpl Hq) as (info & Hrun & _).
+  fold s in Hrun. eexists _, _, _, info. split; [exact Hrun|]. split; [reflexivity|].
+  unfold s_step. cbn [fst]. unfold es_fired. cbn [s_es].
+  unfold s. rewrite s_after_epoch, map_length. fold s.
+  rewrite negb_false_iff, orb_true_iff, andb_true_iff, Z.ltb_lt, Z.eqb_eq.
+  split.
+  - intros [H|H]; [left|right; exact H]. destruct (p_num p) as [n|]; [|discriminate].
+    exists n. split; auto. apply Z.leb_le. exact H.
+  - intros [(n & -> & H)|H]; [left|right; exact H]. apply Z.leb_le. exact H.
+Qed.
+
+(* "multiplies the learning rate by the factor exactly when the analogous reduction criterion fires
+   outside cool-down (and the change is not negligible), never otherwise, and writes the new rate
+   into the optimizer" *)
+Lemma lr_changes_iff_rule : forall rnd rd p decl dflt steps x,
+  wf p -> plain decl (steps ++ [x]) -> es_quiet p (s_init p dflt) (map s_val steps) = true ->
+  let s := s_after p dflt (map s_val steps) in
+  let old := s_rate s in
+  let fire := bad (rule_step (s_rl s) (rlr_thr p) (s_val x)) =? rlr_pat p in
+  let new := if fire && Qlt_b (rlr_eps p) (old - Qred (old * rlr_fac p)) then Qred (old * rlr_fac p) else old in
+  exists c ct info,
+    fst (run rnd rd p decl dflt (init_state p dflt) (steps ++ [x]))
+    = fst (run rnd rd p decl dflt (init_state p dflt) steps) ++ [OOk c ct new info] /\
+    r_lr info = Some new /\
+    opt (snd (run rnd rd p decl dflt (init_state p dflt) (steps ++ [x]))) = new.
+Proof.
+  intros rnd rd p decl dflt steps x Hwf Hpl Hq s old fire new.
+  destruct (last_epoch_follows rnd rd p decl dflt steps x Hwf Hpl Hq) as (info & Hrun & Hlr & Hopt).
+  fold s in Hrun, Hlr, Hopt. eexists _, _, info. split; [exact Hrun|]. split; [exact Hlr|exact Hopt].
+Qed.
